@@ -281,7 +281,7 @@ Section Generic.
         destruct (numvec_some n x0 v E0) as (V0 & Hv & HLv). destruct (view_typed x0 V0) as [Hn0 Hs0].
         split; [discriminate|]. simpl. rewrite Hn0, Hs0. repeat split; auto.
         * unfold safe, quirk_long. rewrite Htab. simpl. unfold quirk_two. destruct (Nat.eqb n 2) eqn:E2; [|reflexivity].
-          apply Nat.eqb_eq in E2. subst n. simpl. inversion V0 as [a Ha|xs Hxs]; subst x0; simpl; [reflexivity|].
+          apply Nat.eqb_eq in E2. rewrite E2 in *. simpl. inversion V0 as [a Ha|xs Hxs]; subst x0; simpl; [reflexivity|].
           simpl in Hv. rewrite nums_of_nums in Hv. subst v. rewrite map_length, HLv. reflexivity.
         * rewrite combine_length. lia.
       + destruct (numvec n x0) as [v0|] eqn:E0; [|discriminate]. destruct (numvec n x1) as [v1|] eqn:E1; [|discriminate].
@@ -290,11 +290,14 @@ Section Generic.
         destruct (view_typed x0 V0) as [Hn0 Hs0]. destruct (view_typed x1 V1) as [Hn1 Hs1].
         split; [discriminate|]. simpl. rewrite Hn0, Hs0, Hn1, Hs1. repeat split; auto.
         * unfold safe, quirk_long. rewrite Htab. simpl. unfold quirk_two. destruct (Nat.eqb n 2) eqn:E2; [|reflexivity].
-          apply Nat.eqb_eq in E2. subst n. simpl. inversion V0 as [a Ha|xs Hxs]; subst x0; simpl; [reflexivity|].
+          apply Nat.eqb_eq in E2. rewrite E2 in *. simpl. inversion V0 as [a Ha|xs Hxs]; subst x0; simpl; [reflexivity|].
           inversion V1 as [a Ha|ys Hys]; subst x1; simpl; [reflexivity|].
           simpl in Hv0, Hv1. rewrite nums_of_nums in Hv0, Hv1. subst v0 v1. rewrite !map_length, HL0, HL1. reflexivity.
         * rewrite combine_length. lia.
   Qed.
+
+  Lemma vb_empty n : validate_bounds n (@PSeq A []) = RaiseOther.
+  Proof. unfold validate_bounds, is_table. destruct n; reflexivity. Qed.
 
   (* SOUNDNESS: an accepted specification is one of the documented forms and is normalised to the table it denotes *)
   Theorem vb_sound n (b : pv A) raw :
@@ -302,7 +305,7 @@ Section Generic.
     validate_bounds n b = Accept raw -> exists t, raw = raw_of t /\ meaning n b = Some t /\ ordered t = true.
   Proof.
     intros Hnum Hdep Hsafe Hacc. destruct b as [a| |l]; try discriminate.
-    destruct l as [|x l]; [discriminate|].
+    destruct l as [|x l]; [rewrite vb_empty in Hacc; discriminate|].
     rewrite vb_char in Hacc by (auto; discriminate). unfold verdict in Hacc.
     destruct (meaning n (PSeq (x :: l))) as [t|]; [|discriminate].
     destruct (negb (Nat.eqb n 0) && ordered t) eqn:E; [|discriminate]. apply andb_prop in E as [_ E].
@@ -349,3 +352,383 @@ Section Generic.
     - intros (t & Hm & _). unfold meaning in Hm. rewrite Htab in Hm. simpl in Hm. rewrite nums_of_nums in Hm.
       apply Nat.eqb_neq in HL. rewrite HL in Hm. discriminate.
   Qed.
+
+  (* ------------------------------------------------------------------ the documented meaning as a relation *)
+  Inductive vec_denotes (n : nat) : pv A -> list A -> Prop :=
+  | VD_scalar a : vec_denotes n (PNum a) (repeat a n)                                  (* a number stands for itself in every slot *)
+  | VD_vector xs : length xs = n -> vec_denotes n (PSeq (map PNum xs)) xs.             (* a vector of exactly n numbers *)
+  Definition row_of (p : A * A) : pv A := PSeq [PNum (fst p); PNum (snd p)].
+  Inductive denotes (n : nat) : pv A -> list (A * A) -> Prop :=
+  | D_table t : length t = n -> n <> 0 -> denotes n (PSeq (map row_of t)) t            (* a (len,2) table; takes precedence *)
+  | D_pair lo hi x y : is_table n (PSeq [lo; hi]) = false ->
+      vec_denotes n lo x -> vec_denotes n hi y -> denotes n (PSeq [lo; hi]) (combine x y)  (* (low, high) *)
+  | D_single v x : is_table n (PSeq [v]) = false ->
+      vec_denotes n v x -> denotes n (PSeq [v]) (combine x x).                            (* one item: low = high *)
+
+  Lemma numvec_denotes n x xs : numvec n x = Some xs <-> vec_denotes n x xs.
+  Proof.
+    split.
+    - intros Hx. destruct (numvec_some n x xs Hx) as (V & Hv & HL). inversion V as [a Ha|ys Hys]; subst x; simpl in Hv.
+      + subst xs. constructor.
+      + rewrite nums_of_nums in Hv. subst ys. now constructor.
+    - intros [a|ys HL]; simpl; [reflexivity|]. rewrite nums_of_nums. apply Nat.eqb_eq in HL. now rewrite HL.
+  Qed.
+
+  Lemma table_rows_rows t : table_rows (map row_of t) = Some t.
+  Proof. induction t as [|[lo hi] t IH]; simpl; [reflexivity|]. now rewrite IH. Qed.
+  Lemma table_rows_inv (l : list (pv A)) t : table_rows l = Some t -> l = map row_of t.
+  Proof.
+    revert t; induction l as [|r l IH]; intros t Ht; simpl in Ht; [inversion Ht; reflexivity|].
+    destruct r as [?| |[|[lo| |?] [|[hi| |?] [|? ?]]]]; try discriminate.
+    destruct (table_rows l) as [t'|] eqn:E; [|discriminate]. inversion Ht; subst. simpl. f_equal. now apply IH.
+  Qed.
+  Lemma rows_row2 t : forallb row2 (map row_of t) = true.
+  Proof. induction t as [|p t IH]; simpl; auto. Qed.
+
+  Theorem meaning_denotes n (b : pv A) t : meaning n b = Some t <-> denotes n b t.
+  Proof.
+    split.
+    - intros Hm. destruct b as [a| |l]; try (cbn in Hm; discriminate). unfold meaning in Hm.
+      destruct (is_table n (PSeq l)) eqn:Htab.
+      + destruct (is_table_len _ _ Htab) as (HL & Hn0 & _). pose proof (table_rows_inv l t Hm) as ->.
+        rewrite map_length in HL. now constructor.
+      + destruct l as [|x0 [|x1 [|x2 l]]]; try discriminate.
+        * destruct (numvec n x0) as [v|] eqn:E0; [|discriminate]. inversion Hm; subst. constructor; auto. now apply numvec_denotes.
+        * destruct (numvec n x0) as [v0|] eqn:E0; [|discriminate]. destruct (numvec n x1) as [v1|] eqn:E1; [|discriminate].
+          inversion Hm; subst. constructor; auto; now apply numvec_denotes.
+    - intros [t' HL Hn0|lo hi x y Htab Hx Hy|v x Htab Hx]; unfold meaning.
+      + assert (Htab : is_table n (PSeq (map row_of t')) = true).
+        { unfold is_table. rewrite map_length, HL, Nat.eqb_refl, rows_row2. apply Nat.eqb_neq in Hn0. now rewrite Hn0. }
+        rewrite Htab. apply table_rows_rows.
+      + rewrite Htab. apply numvec_denotes in Hx, Hy. now rewrite Hx, Hy.
+      + rewrite Htab. apply numvec_denotes in Hx. now rewrite Hx.
+  Qed.
+
+  (* ------------------------------------------------------------------ cumulative bounds: what is stored is what was supplied *)
+  Lemma set_cbound_reports lb hb (c c' : pv A) : set_cbound lb hb c = Accept c' ->
+    c' = c /\ pv_has_len c = true /\ pv_len c = 4 /\ Device_set_cbound_accepts lb hb c = true.
+  Proof.
+    unfold set_cbound. destruct (pv_has_len c && Nat.eqb (pv_len c) 4) eqn:E; simpl; [|discriminate].
+    apply andb_prop in E as [E1 E2]. apply Nat.eqb_eq in E2.
+    destruct (cb_typed c); simpl; [|discriminate]. destruct (Device_set_cbound_accepts lb hb c) eqn:G; [|discriminate].
+    intros Hc. inversion Hc; subst. repeat split; auto.
+  Qed.
+  Lemma set_cbound_all_reports lb hb (l r : list (pv A)) : set_cbound_all lb hb l = Accept r ->
+    r = l /\ forall c, In c l -> pv_len c = 4 /\ Device_set_cbound_accepts lb hb c = true.
+  Proof.
+    revert r; induction l as [|c l IH]; intros r Hr; simpl in Hr.
+    - inversion Hr. split; [reflexivity|intros ? []].
+    - destruct (set_cbound lb hb c) as [c'| |] eqn:E; simpl in Hr; try discriminate.
+      destruct (set_cbound_all lb hb l) as [r'| |] eqn:E'; simpl in Hr; try discriminate.
+      inversion Hr; subst. destruct (set_cbound_reports _ _ _ _ E) as (-> & _ & H4 & HG). destruct (IH r' eq_refl) as [-> Hall].
+      split; [reflexivity|]. intros x [<-|Hx]; auto.
+  Qed.
+
+  Theorem set_cbounds_reports n lb hb (c : pv A) r : set_cbounds n lb hb c = Accept r ->
+    (c = PNone /\ r = None) \/
+    (exists lo hi, c = PSeq [lo; hi] /\ pv_has_len lo = false /\
+       r = Some [PSeq [lo; hi; PNum (nofZ 0); PNum (nofZ (Z.of_nat n))]] /\
+       Device_set_cbound_accepts lb hb (PSeq [lo; hi; PNum (nofZ 0); PNum (nofZ (Z.of_nat n))]) = true) \/
+    (exists l, c = PSeq l /\ r = Some l /\ forall x, In x l -> pv_len x = 4 /\ Device_set_cbound_accepts lb hb x = true).
+  Proof.
+    destruct c as [a| |l]; simpl; intros Hr; try discriminate.
+    - left. inversion Hr. auto.
+    - destruct (Nat.eqb (length l) 2 && negb (pv_has_len (nth 0 l PNone))) eqn:E.
+      + apply andb_prop in E as [E1 E2]. apply Nat.eqb_eq in E1. apply negb_true_iff in E2.
+        destruct l as [|lo [|hi [|? ?]]]; try discriminate. simpl in E2.
+        destruct (set_cbound lb hb (PSeq ([lo; hi] ++ [PNum (nofZ 0); PNum (nofZ (Z.of_nat n))]))) as [c'| |] eqn:Ec; simpl in Hr; try discriminate.
+        destruct (set_cbound_reports _ _ _ _ Ec) as (-> & _ & _ & HG). inversion Hr; subst.
+        right; left. exists lo, hi. auto.
+      + destruct (set_cbound_all lb hb l) as [r'| |] eqn:Ea; simpl in Hr; try discriminate. inversion Hr; subst.
+        destruct (set_cbound_all_reports _ _ _ _ Ea) as [-> Hall]. right; right. exists l. auto.
+  Qed.
+
+  Theorem set_cbounds_rejects_non_sequence n lb hb a : set_cbounds n lb hb (@PNum A a) = RaiseValueError.
+  Proof. reflexivity. Qed.
+  Theorem set_cbound_rejects_arity lb hb (c : pv A) : pv_len c <> 4 -> set_cbound lb hb c = RaiseValueError.
+  Proof. intros H4. unfold set_cbound. apply Nat.eqb_neq in H4. rewrite H4, andb_false_r. reflexivity. Qed.
+  Theorem set_cbound_rejects_guard lb hb (c : pv A) : pv_has_len c = true -> pv_len c = 4 -> cb_typed c = true ->
+    Device_set_cbound_accepts lb hb c = false -> set_cbound lb hb c = RaiseValueError.
+  Proof. intros H1 H4 Ht Hg. unfold set_cbound. apply Nat.eqb_eq in H4. now rewrite H1, H4, Ht, Hg. Qed.
+
+  (* ------------------------------------------------------------------ the constructor reports what validation produced *)
+  Theorem ctor_reports_bounds k n (b cb : pv A) raw scb : ctor k n b cb = Accept (raw, scb) ->
+    validate_bounds n b = Accept raw /\ forallb (fun r => Nat.eqb (length r) 2) raw = true.
+  Proof.
+    unfold ctor, device_bounds. destruct (validate_bounds n b) as [raw'| |] eqn:E; simpl; try discriminate.
+    destruct (forallb (fun r => Nat.eqb (length r) 2) raw') eqn:E2; simpl; [|discriminate].
+    intros Hc. assert (raw' = raw); [|subst; auto].
+    destruct (table_of raw') as [t|].
+    - assert (G : forall (o : outcome (rawtable * option (list (pv A)))),
+                 (o = Accept (raw, scb) -> fst (raw', scb) = raw) -> True) by auto.
+      destruct k; simpl in Hc;
+      repeat match type of Hc with
+      | (if ?c then _ else _) = _ => destruct c; try discriminate
+      | obind ?o _ = _ => destruct o as [?| |]; simpl in Hc; try discriminate
+      | match ?o with _ => _ end = _ => destruct o; simpl in Hc; try discriminate
+      end; inversion Hc; reflexivity.
+    - destruct cb, k; try discriminate; inversion Hc; reflexivity.
+  Qed.
+
+  (* ------------------------------------------------------------------ accepted parameter values are stored unchanged *)
+  Lemma stored_scalars (v w : A) :
+    CDevice_a_stored v = v /\ SDevice_c1_stored w v = v /\ SDevice_c2_stored w v = v /\ SDevice_c3_stored v = v /\
+    SDevice_capacity_stored v = v /\ SDevice_start_stored v = v /\ SDevice_reserve_stored v = v /\
+    SDevice_damage_depth_stored v = v /\ SDevice_efficiency_stored v = v /\ SDevice_sustainment_stored v = v.
+  Proof. repeat split; reflexivity. Qed.
+  Lemma stored_params n (q v : param A) :
+    CDevice2_p_h_stored n q v = v /\ CDevice2_p_l_stored n q v = v /\ IDevice2_p_h_stored n q v = v /\ IDevice2_p_l_stored n q v = v /\
+    IDevice_a_stored n v = v /\ IDevice_b_stored n v = v /\ IDevice_c_stored n v = v.
+  Proof. repeat split; reflexivity. Qed.
+  Lemma stored_rate_clip (r : rcv A) : SDevice_rate_clip_stored r = rc_norm r.
+  Proof. reflexivity. Qed.
+End Generic.
+
+(* ---------------------------------------------------------------------- concrete witnesses (exact rationals, closed by computation) *)
+From Coq Require Import QArith.
+From DK Require Import NumQ.
+
+Definition qn (z : Z) : pv Q := PNum (inject_Z z).
+
+(* FULL STATEMENT (false of the code as it is):
+     forall n b raw, pv_numeric b = true -> depth2 b = true -> validate_bounds n b = Accept raw ->
+       exists t, raw = raw_of t /\ meaning n b = Some t.
+   The three witnesses below are accepted although they have no documented meaning. *)
+Lemma sound_refuted_flat : exists n (b : pv Q) raw,
+  pv_numeric b = true /\ depth2 b = true /\ validate_bounds n b = Accept raw /\ meaning n b = None /\ safe n b = false.
+Proof. exists 3%nat, (PSeq [qn 0; qn 1; qn 2]). eexists. repeat split; vm_compute; reflexivity. Qed.
+Lemma sound_refuted_rows : exists n (b : pv Q) raw,
+  pv_numeric b = true /\ depth2 b = true /\ validate_bounds n b = Accept raw /\ meaning n b = None /\ safe n b = false.
+Proof. exists 2%nat, (PSeq [PSeq [qn 0; qn 1]; PSeq [qn 0; qn 1]; PSeq [qn 0; qn 1]]). eexists. repeat split; vm_compute; reflexivity. Qed.
+Lemma sound_refuted_two : exists n (b : pv Q) raw,
+  pv_numeric b = true /\ depth2 b = true /\ validate_bounds n b = Accept raw /\ meaning n b = None /\ safe n b = false /\ table_of raw = None.
+Proof. exists 2%nat, (PSeq [PSeq [qn 0; qn 1; qn 2]; PSeq [qn 3; qn 4; qn 5]]). eexists. repeat split; vm_compute; reflexivity. Qed.
+(* ill-formed input that is rejected, but not with ValueError *)
+Lemma rejects_refuted_index_error : exists n (b : pv Q),
+  pv_numeric b = true /\ depth2 b = true /\ meaning n b = None /\ validate_bounds n b = RaiseOther /\ safe n b = false.
+Proof. exists 2%nat, (PSeq [PSeq [qn 0]; PSeq [qn 1]]). repeat split; vm_compute; reflexivity. Qed.
+(* PVDevice / GDevice reject a documented form that the base class accepts *)
+Lemma generator_mixed_form_refuted : exists n (b : pv Q) t,
+  meaning n b = Some t /\ ordered t = true /\ GDevice_bounds_accepts (highs t) = true /\
+  is_accept (ctor CDev n b PNone) = true /\ ctor CG n b PNone = RaiseValueError /\ ctor CPV n b PNone = RaiseValueError.
+Proof. exists 3%nat, (PSeq [PSeq [qn (-1); qn (-2); qn (-3)]; qn 0]). eexists. repeat split; vm_compute; reflexivity. Qed.
+
+(* non-vacuity of the theorems above: a well-typed, safe, well-formed specification and its table *)
+Lemma example_pair : let b := PSeq [qn 0; PSeq [qn 1; qn 2; qn 2]] in
+  pv_numeric b = true /\ depth2 b = true /\ safe 3%nat b = true /\
+  meaning 3%nat b = Some [(0, 1); (0, 2); (0, 2)]%Q /\ validate_bounds 3%nat b = Accept (raw_of [(0, 1); (0, 2); (0, 2)]%Q).
+Proof. repeat split; vm_compute; reflexivity. Qed.
+Lemma example_cbounds : set_cbounds 3%nat [0; 0; 0]%Q [1; 1; 1]%Q (PSeq [qn 1; qn 2]) = Accept (Some [PSeq [qn 1; qn 2; qn 0; qn 3]]).
+Proof. vm_compute. reflexivity. Qed.
+
+(* ---------------------------------------------------------------------- the generated guards read as inequalities (real instance) *)
+From Coq Require Import Reals Lra.
+From DK Require Import NumR.
+From DK.Proofs Require Import RVec.
+Local Open Scope R_scope.
+
+Ltac b2p :=
+  unfold nltb in *; cbn [nadd nmul nsub ndiv nopp nleb neqb nofZ n0 n1 NumR] in *;
+  repeat (progress (rewrite ?andb_true_iff, ?orb_true_iff, ?negb_true_iff, ?negb_false_iff, ?andb_false_iff, ?orb_false_iff,
+                            ?Rleb_true, ?Rleb_false, ?Reqb_true, ?Reqb_false, ?Nat.eqb_eq, ?Nat.eqb_neq in * )).
+
+(* documented shapes and ranges of scalar-or-per-slot parameters *)
+Definition shape_ok (n : nat) (p : param R) : Prop := match p with PS _ => True | PV l => length l = n end.
+Definition pall (P : R -> Prop) (p : param R) : Prop := match p with PS a => P a | PV l => List.Forall P l end.
+(* p <= q with a scalar broadcast against a vector *)
+Definition ple (p q : param R) : Prop :=
+  match p, q with
+  | PS a, PS b => a <= b
+  | PS a, PV l => List.Forall (fun b => a <= b) l
+  | PV l, PS b => List.Forall (fun a => a <= b) l
+  | PV l, PV m => length l = length m /\ List.Forall (fun ab => fst ab <= snd ab) (combine l m)
+  end.
+
+Lemma forallb_Forall {T} (f : T -> bool) (P : T -> Prop) l : (forall x, f x = true <-> P x) ->
+  (forallb f l = true <-> List.Forall P l).
+Proof.
+  intros Hf. induction l as [|x l IH]; simpl; [split; auto|].
+  rewrite andb_true_iff, IH, Hf. split; [intros [? ?]; now constructor|intros HF; inversion HF; auto].
+Qed.
+Lemma existsb_Exists {T} (f : T -> bool) (P : T -> Prop) l : (forall x, f x = true <-> P x) ->
+  (existsb f l = true <-> List.Exists P l).
+Proof.
+  intros Hf. induction l as [|x l IH]; simpl; [split; [discriminate|intros HE; inversion HE]|].
+  rewrite orb_true_iff, IH, Hf. split; [intros [?|?]; [now left|now right]|intros HE; inversion HE; auto].
+Qed.
+Lemma param_all_pall (f : R -> bool) (P : R -> Prop) p : (forall x, f x = true <-> P x) ->
+  (param_all f p = true <-> pall P p).
+Proof. intros Hf. destruct p as [a|l]; simpl; [apply Hf|now apply forallb_Forall]. Qed.
+Lemma param_all2_ple p q : param_all2 (fun x y => Rleb x y) p q = true <-> ple p q.
+Proof.
+  destruct p as [a|l], q as [b|m]; simpl.
+  - apply Rleb_true.
+  - apply forallb_Forall. intros; apply Rleb_true.
+  - apply forallb_Forall. intros; apply Rleb_true.
+  - rewrite andb_true_iff, Nat.eqb_eq. apply and_iff_compat_l. apply forallb_Forall. intros [x y]; apply Rleb_true.
+Qed.
+Lemma param_all2_pge p q : param_all2 (fun x y => Rleb y x) p q = true <-> ple q p.
+Proof.
+  destruct p as [a|l], q as [b|m]; simpl.
+  - apply Rleb_true.
+  - apply forallb_Forall. intros; apply Rleb_true.
+  - apply forallb_Forall. intros; apply Rleb_true.
+  - rewrite andb_true_iff, Nat.eqb_eq. split.
+    + intros [HL HF]. split; [auto|]. clear HL. revert m HF. induction l as [|x l IH]; intros [|y m] HF; simpl in *; try constructor.
+      * apply andb_prop in HF as [H1 _]. now apply Rleb_true in H1.
+      * apply andb_prop in HF as [_ H2]. now apply IH.
+    + intros [HL HF]. split; [auto|]. clear HL. revert l HF. induction m as [|y m IH]; intros [|x l] HF; simpl in *; auto.
+      inversion HF as [|? ? H1 H2]; subst. simpl in H1. apply Rleb_true in H1. rewrite H1. simpl. now apply IH.
+Qed.
+Lemma shape_bool n (p : param R) : (param_is_scalar p || Nat.eqb (param_len p) n) = true <-> shape_ok n p.
+Proof. destruct p as [a|l]; simpl; [tauto|]. apply Nat.eqb_eq. Qed.
+
+(* --- CDevice --- *)
+Lemma cdevice_a_range (a : R) : CDevice_a_accepts a = true <-> a <= 0.
+Proof. unfold CDevice_a_accepts. b2p. tauto. Qed.
+
+(* --- high/low slopes (CDevice2 and IDevice2 have the same guards) --- *)
+Lemma hl_validate_range n p : CDevice2_validate_param_accepts n p = true <-> shape_ok n p /\ pall (fun x => x <= 0) p.
+Proof.
+  unfold CDevice2_validate_param_accepts. cbv zeta. rewrite andb_true_iff, andb_true_r, !negb_involutive, shape_bool.
+  apply and_iff_compat_l. apply param_all_pall. intros x. b2p. tauto.
+Qed.
+Lemma hl2_validate_range n p : IDevice2_validate_param_accepts n p = true <-> shape_ok n p /\ pall (fun x => x <= 0) p.
+Proof. exact (hl_validate_range n p). Qed.
+Lemma cdevice2_p_h_range n pl v : CDevice2_p_h_accepts n pl v = true <-> shape_ok n v /\ pall (fun x => x <= 0) v /\ ple pl v.
+Proof.
+  unfold CDevice2_p_h_accepts. cbv zeta. rewrite andb_true_iff, andb_true_r, negb_involutive, hl_validate_range.
+  change (CDevice2_validate_param_stored n v) with v. rewrite param_all2_ple. tauto.
+Qed.
+Lemma cdevice2_p_l_range n ph v : CDevice2_p_l_accepts n ph v = true <-> shape_ok n v /\ pall (fun x => x <= 0) v /\ ple v ph.
+Proof.
+  unfold CDevice2_p_l_accepts. cbv zeta. rewrite andb_true_iff, andb_true_r, negb_involutive, hl_validate_range.
+  change (CDevice2_validate_param_stored n v) with v. rewrite param_all2_pge. tauto.
+Qed.
+Lemma idevice2_p_h_range n pl v : IDevice2_p_h_accepts n pl v = true <-> shape_ok n v /\ pall (fun x => x <= 0) v /\ ple pl v.
+Proof. exact (cdevice2_p_h_range n pl v). Qed.
+Lemma idevice2_p_l_range n ph v : IDevice2_p_l_accepts n ph v = true <-> shape_ok n v /\ pall (fun x => x <= 0) v /\ ple v ph.
+Proof. exact (cdevice2_p_l_range n ph v). Qed.
+
+(* --- IDevice --- *)
+Lemma idevice_validate_range p n : IDevice_validate_param_accepts p n = true <-> shape_ok n p /\ pall (fun x => 0 <= x) p.
+Proof.
+  unfold IDevice_validate_param_accepts. cbv zeta. rewrite andb_true_iff, andb_true_r, !negb_involutive, shape_bool.
+  apply and_iff_compat_l. apply param_all_pall. intros x. b2p. tauto.
+Qed.
+Lemma idevice_a_range n a : IDevice_a_accepts n a = true <-> shape_ok n a /\ pall (fun x => 0 <= x) a.
+Proof. unfold IDevice_a_accepts. rewrite andb_true_r. apply idevice_validate_range. Qed.
+Lemma idevice_c_range n c : IDevice_c_accepts n c = true <-> shape_ok n c /\ pall (fun x => 0 <= x) c.
+Proof. unfold IDevice_c_accepts. rewrite andb_true_r. apply idevice_validate_range. Qed.
+Lemma pall_and (P Q : R -> Prop) p : pall P p /\ pall Q p <-> pall (fun x => P x /\ Q x) p.
+Proof.
+  destruct p as [a|l]; simpl; [tauto|]. rewrite !List.Forall_forall. firstorder.
+Qed.
+Lemma idevice_b_range n b : IDevice_b_accepts n b = true <-> shape_ok n b /\ pall (fun x => 0 < x) b.
+Proof.
+  unfold IDevice_b_accepts. rewrite andb_true_iff, andb_true_r, negb_involutive, idevice_validate_range.
+  rewrite (param_all_pall _ (fun x => 0 < x)) by (intros x; b2p; tauto).
+  split; [tauto|]. intros [Hs Hp]. repeat split; auto. destruct b as [a|l]; simpl in *; [lra|].
+  rewrite List.Forall_forall in *. intros x Hx. specialize (Hp x Hx). lra.
+Qed.
+
+(* --- generators may not consume --- *)
+Lemma generator_bounds_range hb : GDevice_bounds_accepts hb = true <-> List.Forall (fun h => h <= 0) hb.
+Proof.
+  unfold GDevice_bounds_accepts. rewrite andb_true_r, negb_involutive. apply forallb_Forall. intros x. b2p. tauto.
+Qed.
+Lemma pv_bounds_range hb : PVDevice_bounds_accepts hb = true <-> List.Forall (fun h => h <= 0) hb.
+Proof. exact (generator_bounds_range hb). Qed.
+
+(* --- SDevice --- *)
+Lemma sdevice_c1_range c2 c1 : SDevice_c1_accepts c2 c1 = true <-> 0 <= c1 /\ ~ (c1 <= c2 /\ 0 < c2).
+Proof. unfold SDevice_c1_accepts. b2p. split; intros; intuition lra. Qed.
+Lemma sdevice_c2_range c1 c2 : SDevice_c2_accepts c1 c2 = true <-> 0 <= c2 /\ ~ (c1 < c2 /\ 0 < c1).
+Proof. unfold SDevice_c2_accepts. b2p. split; intros; intuition lra. Qed.
+Lemma sdevice_c3_range c3 : SDevice_c3_accepts c3 = true <-> 0 <= c3.
+Proof. unfold SDevice_c3_accepts. b2p. tauto. Qed.
+Lemma sdevice_capacity_range c : SDevice_capacity_accepts c = true <-> 0 < c.
+Proof. unfold SDevice_capacity_accepts. b2p. tauto. Qed.
+Lemma sdevice_unit_ranges v :
+  (SDevice_start_accepts v = true <-> 0 <= v <= 1) /\ (SDevice_reserve_accepts v = true <-> 0 <= v <= 1) /\
+  (SDevice_damage_depth_accepts v = true <-> 0 <= v <= 1) /\
+  (SDevice_efficiency_accepts v = true <-> 0 < v <= 1) /\ (SDevice_sustainment_accepts v = true <-> 0 < v <= 1).
+Proof.
+  unfold SDevice_start_accepts, SDevice_reserve_accepts, SDevice_damage_depth_accepts, SDevice_efficiency_accepts, SDevice_sustainment_accepts.
+  repeat split; b2p; intuition lra.
+Qed.
+Definition none_or_ge1 (o : option R) : Prop := match o with None => True | Some v => 1 <= v end.
+Lemma sdevice_rate_clip_range r :
+  SDevice_rate_clip_accepts r = true <-> none_or_ge1 (fst (rc_norm r)) /\ none_or_ge1 (snd (rc_norm r)).
+Proof.
+  unfold SDevice_rate_clip_accepts. cbv zeta. destruct (rc_norm r) as [[a|] [b|]]; simpl; b2p; intuition (try lra; try discriminate).
+Qed.
+
+(* --- TDevice constructor guard block --- *)
+Lemma tdevice_init_range n sus eff tr (text : list R) c :
+  TDevice_init_accepts n sus eff tr text c = true <->
+  0 <= sus <= 1 /\ eff <> 0 /\ 0 <= tr /\ length text = n /\ shape_ok n c /\ pall (fun x => 0 <= x) c.
+Proof.
+  unfold TDevice_init_accepts. rewrite !andb_true_iff, idevice_validate_range. b2p. intuition lra.
+Qed.
+
+(* --- set-level guards --- *)
+Lemma mfdeviceset_init_range lb hb (flows : list string) :
+  MFDeviceSet_init_accepts lb hb flows = true <->
+  flows <> [] /\ ~ (List.Exists (fun l => l < 0) lb /\ List.Exists (fun h => 0 < h) hb).
+Proof.
+  unfold MFDeviceSet_init_accepts. rewrite andb_true_r, !andb_true_iff, !negb_involutive, !negb_true_iff, andb_false_iff, Nat.eqb_neq.
+  rewrite <- !not_true_iff_false.
+  rewrite (existsb_Exists _ (fun l => l < 0)) by (intros x; b2p; tauto).
+  rewrite (existsb_Exists _ (fun h => 0 < h)) by (intros x; b2p; tauto).
+  split; intros [Hf Hb]; (split; [destruct flows; simpl in *; congruence|tauto]).
+Qed.
+Lemma tworatio_init_range (flows : list string) (ratios : option (list R)) ct :
+  TwoRatioMFDeviceSet_init_accepts flows ratios ct = true <->
+  length flows = 2%nat /\ (match ratios with None => True | Some r => length r = length flows end) /\ (ct = "eq"%string \/ ct = "ineq"%string).
+Proof.
+  unfold TwoRatioMFDeviceSet_init_accepts. rewrite andb_true_r, !andb_true_iff, !negb_involutive. simpl existsb.
+  rewrite orb_false_r, !orb_true_iff, !String.eqb_eq, Nat.eqb_eq.
+  destruct ratios as [r|]; [rewrite negb_involutive, Nat.eqb_eq|]; simpl; intuition congruence.
+Qed.
+
+(* --- cumulative bounds: arity 4, lo < hi, attainable within the slot bounds of the range --- *)
+Lemma cbound_guard_arity lb hb (c : pv R) : Device_set_cbound_accepts lb hb c = true -> pv_has_len c = true /\ pv_len c = 4%nat.
+Proof.
+  unfold Device_set_cbound_accepts. rewrite !andb_true_iff. intros [Ha _].
+  rewrite negb_true_iff, orb_false_iff, !negb_false_iff, Nat.eqb_eq in Ha. exact Ha.
+Qed.
+Lemma cbound_guard_spec lb hb lo hi (si ei : pv R) :
+  Device_set_cbound_accepts lb hb (PSeq [PNum lo; PNum hi; si; ei]) = true <->
+  lo < hi /\
+  vsum (slice (pv_slice_lo (length lb) si) (pv_slice_hi (length lb) ei) lb) <= hi /\
+  lo <= vsum (slice (pv_slice_lo (length hb) si) (pv_slice_hi (length hb) ei) hb).
+Proof.
+  unfold Device_set_cbound_accepts. cbn [pv_has_len pv_len length pv_nth nth pv_num Nat.eqb negb orb andb].
+  set (L := vsum (slice _ _ lb)). set (Hh := vsum (slice _ _ hb)). b2p. intuition lra.
+Qed.
+
+Lemma find_seq_first (f : nat -> bool) s len k : (s <= k < s + len)%nat -> f k = true ->
+  (forall j, (s <= j < k)%nat -> f j = false) -> find f (seq s len) = Some k.
+Proof.
+  revert s; induction len as [|len IH]; intros s Hk Hf Hlt; [lia|]. simpl.
+  destruct (Nat.eq_dec s k) as [->|Hne]; [now rewrite Hf|].
+  rewrite (Hlt s) by lia. apply IH; [lia|auto|]. intros j Hj. apply Hlt. lia.
+Qed.
+(* slice indices given as natural numbers within the horizon are read as themselves *)
+Lemma int_index_nat n k : (k <= n)%nat -> int_index (A:=R) n (IZR (Z.of_nat k)) = k.
+Proof.
+  intros Hk. unfold int_index. cbn [nofZ neqb NumR].
+  rewrite (find_seq_first _ 0 (S n) k); [reflexivity|lia| |].
+  - now apply Reqb_true.
+  - intros j Hj. apply Reqb_false. intros E. apply eq_IZR in E. lia.
+Qed.
+Corollary cbound_guard_spec_nat lb hb lo hi s e : (s <= length lb)%nat -> (e <= length lb)%nat -> length hb = length lb ->
+  Device_set_cbound_accepts lb hb (PSeq [PNum lo; PNum hi; PNum (IZR (Z.of_nat s)); PNum (IZR (Z.of_nat e))]) = true <->
+  lo < hi /\ vsum (slice s e lb) <= hi /\ lo <= vsum (slice s e hb).
+Proof.
+  intros Hs He HL. rewrite cbound_guard_spec. cbn [pv_slice_lo pv_slice_hi]. rewrite HL, !int_index_nat by lia. tauto.
+Qed.
+
+Lemma ordered_real (t : list (R * R)) : ordered t = true <-> List.Forall (fun p => fst p <= snd p) t.
+Proof. unfold ordered. apply forallb_Forall. intros [l h]. b2p. simpl. split; lra. Qed.
